@@ -113,7 +113,9 @@ func monitorSelfTest(c *kit.Ctx, id string) {
 	zw := model.C12Params{VoteRounds: 3, Threshold: 2, MinWait: 0, MaxWait: 4}
 	idle := hdr{Round: 10, Curr: 1}
 	ann := hdr{Round: 11, Curr: 1, Next: 2, Approvals: 1, VoteBefore: 14, SwitchOn: 16}
-	h := func(n, na uint64) hdr { return hdr{Round: n, Curr: 1, Next: 2, Approvals: na, VoteBefore: 14, SwitchOn: 16} }
+	h := func(n, na uint64) hdr {
+		return hdr{Round: n, Curr: 1, Next: 2, Approvals: na, VoteBefore: 14, SwitchOn: 16}
+	}
 	sw := func(n, v uint64) hdr { return hdr{Round: n, Curr: v} }
 	tests := []tc{
 		{"good", std, []hdr{idle, ann, h(12, 2), h(13, 2), h(14, 2), h(15, 2), sw(16, 2), {Round: 17, Curr: 2}}, ""},
